@@ -144,10 +144,48 @@ class LiveSet:
         return out
 
 
+class OpTimeout(Exception):
+    pass
+
+
+OP_TIMEOUT_S = 15.0
+
+
+def with_watchdog(fn, timeout_s=None):
+    """Run fn(); Exo's own SMT queries have no timeout, so a watchdog thread interrupts
+    z3's main context when the call takes too long (the pending check() then raises)."""
+    import threading
+
+    fired = []
+
+    def fire():
+        fired.append(True)
+        try:
+            z3.main_ctx().interrupt()
+        except Exception:
+            pass
+
+    t = threading.Timer(timeout_s or OP_TIMEOUT_S, fire)
+    t.daemon = True
+    t.start()
+    try:
+        r = fn()
+    except BaseException as ex:  # noqa
+        if fired:
+            raise OpTimeout(f"operation interrupted after {timeout_s or OP_TIMEOUT_S}s ({type(ex).__name__})")
+        raise
+    finally:
+        t.cancel()
+    if fired:
+        # the interrupt arrived too late to matter, or hit nothing
+        pass
+    return r
+
+
 def apply_op(op, p, args):
     """returns (result procedure or None, exception or None)"""
     try:
-        res = op(p, *args)
+        res = with_watchdog(lambda: op(p, *args))
         return first_proc(res), None, res
     except BaseException as ex:  # noqa
         if isinstance(ex, (KeyboardInterrupt, SystemExit, MemoryError)):
@@ -257,7 +295,7 @@ def _one_instance(ctx: ProcCtx, p, op, opname, args, props, live, rec, env, boun
     q, ex, raw = apply_op(op, p, list(args))
     rec["op_s"] = round(time.time() - t0, 3)
     if ex is not None:
-        rec["status"] = "rejected"
+        rec["status"] = "op_timeout" if isinstance(ex, OpTimeout) else "rejected"
         rec["exc"] = type(ex).__name__
     else:
         rec["status"] = "accepted" if q is not None else "noproc"
@@ -363,11 +401,14 @@ def _one_instance(ctx: ProcCtx, p, op, opname, args, props, live, rec, env, boun
         # (d) compiles or is rejected by a documented backend check
         if rng.random() < (1.0 if tier == "thorough" else 0.5):
             try:
-                q.c_code_str()
+                with_watchdog(q.c_code_str)
                 rec["c04_compile"] = "ok"
             except BaseException as cex_:  # noqa
                 if isinstance(cex_, (KeyboardInterrupt, SystemExit)):
                     raise
+                if isinstance(cex_, OpTimeout):
+                    rec["c04_compile"] = None
+                    return
                 nm = type(cex_).__name__
                 rec["c04_compile"] = nm
                 # does the original compile?
